@@ -27,6 +27,8 @@
  *   TCX tgid tid uid gid family sport daddr dport    run the kprobe on an arbitrary socket
  *   FAIL kind k errno                 the k-th bpf_map_update_elem (kind 1) / bpf_map_delete_elem (kind 2) call of the
  *                                     NEXT hook run fails with -errno and has no effect
+ *   FAILN k errno                     the k-th map helper call (lookups counted) of the NEXT hook run fails if it is an
+ *                                     update or a delete (coq/Model/EbpfFaults.v: oracle fail_at k)
  *   SCHED k <C4|TC|TCX line>          another caller's hook runs on "another CPU" right after the k-th map helper call
  *                                     of the NEXT hook run returns (afterwards, if that run makes fewer calls); the next
  *                                     hook line then answers [[outs], maps..., [fired, the other hook's outs]]
@@ -269,6 +271,12 @@ int main(void)
             /* FAIL kind k errno: the k-th update (kind 1) / delete (kind 2) helper call of the next hook run fails */
             need(n, 3, "FAIL");
             maps_inject((int)w[0], (int)w[1], (int)w[2]);
+            fputs("[[]", stdout);
+        } else if (!strcmp(op, "FAILN")) {
+            /* FAILN k errno: the k-th map helper call (lookups counted) of the next hook run fails if it is an
+             * update or a delete -- the oracle `fail_at k` of coq/Model/EbpfFaults.v */
+            need(n, 2, "FAILN");
+            maps_inject_call((int)w[0], (int)w[1]);
             fputs("[[]", stdout);
         } else if (!strcmp(op, "P+") || !strcmp(op, "S")) {
             void *m = op[0] == 'P' ? (void *)&policy_map : (void *)&skip_process_map;
